@@ -82,6 +82,9 @@ def _flavour_env(flavour):
 
 
 def _prune(flavour, keep):
+    """Remove builds of this flavour that have not been used for 3 hours
+    (several checks / scratch self-tests may share the cache concurrently),
+    always keeping the 4 most recently used."""
     try:
         ents = [e for e in os.listdir(BUILD_ROOT)
                 if e.endswith("-" + flavour) and
@@ -90,9 +93,11 @@ def _prune(flavour, keep):
         return
     ents.sort(key=lambda e: os.path.getmtime(os.path.join(BUILD_ROOT, e)),
               reverse=True)
-    for e in ents[2:]:
-        if e != keep:
-            shutil.rmtree(os.path.join(BUILD_ROOT, e), ignore_errors=True)
+    now = time.time()
+    for e in ents[4:]:
+        p = os.path.join(BUILD_ROOT, e)
+        if e != keep and now - os.path.getmtime(p) > 3 * 3600:
+            shutil.rmtree(p, ignore_errors=True)
 
 
 def ensure(flavour="plain", repo=None, quiet=True):
